@@ -1,6 +1,7 @@
 import NssVerif.RealInst
 import NssVerif.Model.Eas
 import NssVerif.Lemmas.Eas
+import NssVerif.Gen.Src.C08
 import Mathlib.Tactic.Ring
 import Mathlib.Tactic.Linarith
 import Mathlib.Tactic.Positivity
@@ -232,5 +233,45 @@ example : inRange (0 : ℝ) = true ∧ inRange (20 : ℝ) = true := by
 example : (0:ℝ) < Real.cos 0 := by simp
 example : ∃ r : ℝ, 2 < r ∧ thetaEff 1 r = Real.sqrt (2 * Real.log r) :=
   ⟨3, by norm_num, by rw [thetaEff_of_gt 1 3 (by norm_num) (by norm_num)]; simp⟩
+
+/-! ### source tie: the functions translated from the Python source of the working tree ARE the model
+
+`Gen/Src/C08.lean` is regenerated from `eas.py`, `cphotang.py`, `detector_geometry.py` and `shower_properties.py` on
+every run (harness/pytrans.py, harness/srcspecs/C08.py).  The equalities below hold for every `Scalar` instance — over ℝ
+(what the theorems above are about) and at `Float` (what the driver executes) — so the theorems above are theorems about
+the translated source. -/
+
+/-- `EAS.__call__` for one event, as translated from the source — the kernel call `self.CphotAng(…[mask])` left as the
+pair of inputs `(kernel ev).1, (kernel ev).2` — is the model's `easOne`: range mask, defaults 0 and 1.5 outside it,
+numPEs = density × area × quantum efficiency, enhancement factor and effective Cherenkov angle.  (Not literally `rfl`:
+the source selects the two components separately, `dphots[mask], thetaCh100PeV[mask] = …`, the model selects the pair;
+one case split on the mask, for every `Scalar` instance.) -/
+theorem src_easCall {α : Type} [Scalar α] (o : Optical α) (kernel : Event α → α × α) (ev : Event α) :
+    Gen.Src.C08.easCall ev.beta ev.alt ev.energy ev.lat ev.long o.area o.qe o.thr (kernel ev).1 (kernel ev).2
+      = easOne o kernel ev := by
+  unfold Gen.Src.C08.easCall easOne kernelOrDefault inRange Scalar.gtb
+  generalize (Scalar.ltb ev.alt (0.0 : α) || Scalar.ltb (20.0 : α) ev.alt) = m
+  cases m <;> rfl
+
+/-- `detector_geometry.viewing_angle` -/
+theorem src_viewingAngle {α : Type} [Scalar α] (beta zdet re : α) :
+    Gen.Src.C08.viewingAngle beta zdet re = viewingAngle beta zdet re := by rfl
+
+/-- `shower_properties.propagation_angle` -/
+theorem src_propagationAngle {α : Type} [Scalar α] (beta z re : α) :
+    Gen.Src.C08.propagationAngle beta z re = propagationAngle beta z re := by rfl
+
+/-- `detector_geometry.distance_to_detector` (its two helpers inlined from their own source) -/
+theorem src_distanceToDetector {α : Type} [Scalar α] (beta z zdet re : α) :
+    Gen.Src.C08.distanceToDetector beta z zdet re = distToDet beta z zdet re := by rfl
+
+/-- head and tail of `CphotAng.run` as translated from the source, with the sums of the step loop (`photsum`, `CherArea`,
+`AveCangI`, `CangsigI`) as inputs and the instance's `orbit_height`, `RadE` instantiated with the model's pinned values:
+the emergence angle is clamped at 1°, the reference density `0.5·photsum/CherArea` is scaled by the squared distance
+ratio to the configured detector altitude, the angle is returned unchanged — the model's `scaleToDetector` at the
+clamped angle.  (`zmax` only enters the viewing angle handed to the step loop.) -/
+theorem src_runScaled {α : Type} [Scalar α] (betaE alt e100 zmax detAlt photsum ave sig cherArea : α) :
+    Gen.Src.C08.runScaled betaE alt e100 orbitHeight radE zmax detAlt photsum ave sig cherArea
+      = scaleToDetector (0.5 * photsum / cherArea, Scalar.degrees (ave + sig)) (clampBeta betaE) alt detAlt := by rfl
 
 end C08
